@@ -432,7 +432,8 @@ fn gds_case(src: &mut Src, ctx: &mut Ctx) -> Result<(), String> {
         Err(e) => Err(format!("{:?}", e)),
         Ok(rl) => rl.cells.iter().map(|p| index_of(&p.read().unwrap().name)).collect(),
     };
-    judge_membership(&g, &listing, res, "GDSII import (Library::from_gds)")
+    // the imported library lists its cells in the order they were imported: dependencies first
+    judge(&g, &listing, res, "GDSII import (Library::from_gds), order of the imported cells")
 }
 
 /// `views` decides, two bits per node (mod 32), which view a cell WITHOUT instances gets: a layout,
